@@ -200,7 +200,12 @@ class Interp:
         ts = self.canon(ts)
         base, dims = self.base_of(ts)
         if dims:
-            inner = base + "".join("[%d]" % d for d in dims[1:])
+            m_ = re.match(r"^(.*?)\[(\d+)\]((?:\[\d+\])*)$", ts.strip())
+            if m_ and "*" in m_.group(1):
+                # array of pointers: the element type keeps its pointer-ness
+                inner = m_.group(1).strip() + m_.group(3)
+            else:
+                inner = base + "".join("[%d]" % d for d in dims[1:])
             return Arr(inner, [self.new_object(inner, init) for _ in range(dims[0])])
         if "*" in ts:
             return Cell(init)
@@ -347,6 +352,8 @@ class Interp:
             pass
         elif k == "DeclStmt":
             for c in n["inner"]:
+                if c.get("kind") in ("StaticAssertDecl", "TypedefDecl", "TypeAliasDecl", "UsingDecl"):
+                    continue          # compile-time only
                 self.vardecl(c, env)
         elif k == "ReturnStmt":
             v = None
